@@ -358,8 +358,12 @@ def gen_case(rng):
                 if rng.random() < 0.3:
                     op["op"] = "api_frag"
                     op["container"] = rng.choice(c12.FRAG_CONTAINERS)
-            elif r < 0.55:
+            elif r < 0.52:
                 op = {"op": "get_builder", "builder": builder}
+            elif r < 0.62:
+                doc = list(rng.choice(c12.SER_DOCS)) if rng.random() < 0.5 else list(rng.choice(SHARED_DOCS))
+                op = {"op": "pipeline", "doc": doc, "builder": rng.choice(["etree", "dom"]),
+                      "filters": rng.sample(c12.PIPE_FILTERS, rng.randint(0, 3)), "sink": rng.choice(c12.PIPE_SINKS)}
             elif r < 0.85:
                 op = {"op": "api_serialize", "doc": list(rng.choice(c12.SER_DOCS)), "builder": rng.choice(["etree", "dom"]),
                       "opts": dict(rng.choice(c12.SER_OPTS)),
@@ -397,6 +401,8 @@ def run_api_op(op, private=None):
     from . import c12
     from .canon import canon_tree, canon_errors
     kind = op["op"]
+    if kind == "pipeline":
+        return c12.run_pipeline_op(op)
     try:
         if kind == "get_builder":
             cls = _api_tb(op["builder"])
